@@ -3,6 +3,9 @@
 
 mod bddmon;
 mod common;
+mod hist;
+mod meta;
+mod parse;
 mod pipes;
 mod sem;
 mod small;
@@ -92,7 +95,12 @@ fn run(cfg: &Cfg, rep: &mut Report) {
         "c05" => sem::c05(cfg, rep),
         "c06" => bddmon::c06(cfg, rep),
         "c07" => bddmon::c07(cfg, rep),
+        "c08" => parse::c08(cfg, rep),
+        "c09" => parse::c09(cfg, rep),
+        "c10" => meta::c10(cfg, rep),
+        "c11" => hist::c11(cfg, rep),
         "c13" => bddmon::c13(cfg, rep),
+        "c14" => hist::c14(cfg, rep),
         "c18" => small::c18(cfg, rep),
         #[cfg(feature = "frontend")]
         "c19" => stream::c19(cfg, rep),
